@@ -199,6 +199,21 @@ public:
     }
   }
 
+  // Explicit template arguments of a callee, as written (`is_nan<From1_Policy>(x)` -> ["From1_Policy"]).
+  void explicitTargs(llvm::ArrayRef<TemplateArgumentLoc> Args) {
+    J.attributeBegin("targs");
+    J.arrayBegin();
+    PrintingPolicy PP(Ctx.getLangOpts());
+    for (const TemplateArgumentLoc &A : Args) {
+      std::string S;
+      llvm::raw_string_ostream OS(S);
+      A.getArgument().print(PP, OS, /*IncludeType=*/false);
+      J.value(OS.str());
+    }
+    J.arrayEnd();
+    J.attributeEnd();
+  }
+
   void calleeInfo(const FunctionDecl *FD) {
     if (!FD)
       return;
@@ -379,11 +394,16 @@ public:
       if (FD) {
         J.attribute("k", "call");
         calleeInfo(FD);
+        if (auto *DR = dyn_cast_or_null<DeclRefExpr>(CS))
+          if (DR->hasExplicitTemplateArgs())
+            explicitTargs(DR->template_arguments());
       } else if (auto *UL = dyn_cast_or_null<UnresolvedLookupExpr>(CS)) {
         J.attribute("k", "call");
         J.attribute("dep", true);
         J.attribute("callee", "~" + UL->getName().getAsString());
         J.attribute("cn", UL->getName().getAsString());
+        if (UL->hasExplicitTemplateArgs())
+          explicitTargs(UL->template_arguments());
       } else if (auto *DM = dyn_cast_or_null<CXXDependentScopeMemberExpr>(CS)) {
         J.attribute("k", "mcall");
         J.attribute("dep", true);
